@@ -738,6 +738,81 @@ pub fn add_byte_features(lines: &mut [GLine], rng: &mut Rng) -> String {
     format!("crlf{}{}{}", crlf, if invalid { "+invalid-utf8" } else { "" }, if no_final { "+no-final-newline" } else { "" })
 }
 
+
+/// Minimisation that keeps the input a well-formed diff: whole hunks (header and body) and whole
+/// file sections are dropped, never single lines out of the middle (a `--- a/x` line followed by a
+/// stray context line is not a diff, and a verdict about it means nothing), then the tail is cut
+/// (every prefix of a diff is a legitimate pause point).
+pub fn minimise_lines(lines: Vec<GLine>, budget: &mut usize, fails: &mut dyn FnMut(&[GLine]) -> bool) -> Vec<GLine> {
+    // units: (section, Some(k)) = k-th hunk block of the section, (section, None) = its other lines
+    let mut unit_of: Vec<(usize, Option<usize>)> = Vec::with_capacity(lines.len());
+    let mut hunk_no = 0usize;
+    let mut in_hunk = false;
+    let mut cur_section = usize::MAX;
+    for l in &lines {
+        if l.section != cur_section {
+            cur_section = l.section;
+            in_hunk = false;
+        }
+        match l.kind {
+            LineKind::HunkHeader => {
+                hunk_no += 1;
+                in_hunk = true;
+                unit_of.push((l.section, Some(hunk_no)));
+            }
+            LineKind::Meta => {
+                in_hunk = false;
+                unit_of.push((l.section, None));
+            }
+            _ => unit_of.push((l.section, if in_hunk { Some(hunk_no) } else { None })),
+        }
+    }
+    let mut units: Vec<(usize, Option<usize>)> = Vec::new();
+    for u in &unit_of {
+        // a section's non-hunk lines are a unit of their own only when it has no hunks at all
+        if !units.contains(u) {
+            units.push(*u);
+        }
+    }
+    let has_hunks = |sec: usize| units.iter().any(|(s, h)| *s == sec && h.is_some());
+    let droppable: Vec<(usize, Option<usize>)> = units.iter().copied().filter(|(s, h)| h.is_some() || !has_hunks(*s)).collect();
+    let assemble = |keep: &[(usize, Option<usize>)]| -> Vec<GLine> {
+        lines
+            .iter()
+            .zip(unit_of.iter())
+            .filter(|(_, u)| match u.1 {
+                Some(_) => keep.contains(u),
+                // header and other lines of a section stay as long as anything of the section stays
+                None => keep.iter().any(|(s, _)| *s == u.0),
+            })
+            .map(|(l, _)| l.clone())
+            .collect()
+    };
+    let kept = crate::text::ddmin(droppable, budget, &mut |keep: &[(usize, Option<usize>)]| {
+        let cand = assemble(keep);
+        !cand.is_empty() && fails(&cand)
+    });
+    let mut cur = assemble(&kept);
+    // cut the tail
+    let mut step = cur.len() / 2;
+    while step >= 1 && *budget > 0 && cur.len() > 1 {
+        if step >= cur.len() {
+            step = cur.len() / 2;
+            if step == 0 {
+                break;
+            }
+        }
+        let cand: Vec<GLine> = cur[..cur.len() - step].to_vec();
+        *budget -= 1;
+        if fails(&cand) {
+            cur = cand;
+        } else {
+            step /= 2;
+        }
+    }
+    cur
+}
+
 pub fn random_params(rng: &mut Rng, pivot: usize) -> GenParams {
     let flavor = match rng.below(10) {
         0 | 1 => Flavor::DiffU,
